@@ -6,11 +6,11 @@ in terminal states.  DESIGN.md 3.3."""
 import json, os, re, shutil, subprocess, sys, time, collections
 
 TLA_JAR = "/opt/veriftools/tla/tla2tools.jar"
-CM_JAR = None
+CM_JAR = "/opt/veriftools/tla/CommunityModules-deps.jar"
 
 
 def tlc_cmd(spec, cfg, workers, metadir, extra=(), heap="8g", simulate=None, depth=None, seed=None):
-    cmd = ["tlc", "-workers", str(workers), "-metadir", metadir, "-config", cfg]
+    cmd = ["java", "-XX:+UseSerialGC", "-Xmx%s" % heap, "-cp", TLA_JAR + ":" + CM_JAR, "tlc2.TLC", "-workers", str(workers), "-metadir", metadir, "-config", cfg]
     if simulate:
         cmd += ["-simulate", "num=%d" % simulate]
     if depth:
@@ -51,7 +51,8 @@ class Graph:
 
 def run_tlc_graph(spec, cfg, workers=8, metadir=None, timeout=3600, cwd=None, keep_log=None, env=None):
     """returns (graph, info) ; info has states, distinct, violated (name or None), error trace text, wall"""
-    metadir = metadir or os.path.join("/verif/build/tlc", "g%d_%d" % (os.getpid(), int(time.time() * 1000) % 100000))
+    import threading
+    metadir = metadir or os.path.join("/verif/build/work", str(os.getpid()), "tlc", "g%d_%d" % (threading.get_ident() % 100000, int(time.time() * 1000) % 100000))
     os.makedirs(os.path.dirname(metadir), exist_ok=True)
     g = Graph()
     info = {"states": 0, "distinct": 0, "violated": None, "ok": False, "log": []}
@@ -190,22 +191,28 @@ def fmt_obs(obs, keys=None):
 
 
 def write_schedule(path, g, tours, init_text, obs_fmt=fmt_obs, init_of=None):
+    cache = {}
     with open(path, "w") as f:
         for ti, t in enumerate(tours):
             it = init_text if init_of is None else init_of(g, t)
-            f.write("T %d %s\n" % (ti + 1, it))
+            out = ["T %d %s\n" % (ti + 1, it)]
             for e in t:
-                u, v, actor, label, obs = g.edges[e]
-                f.write("S %d %s %s\n" % (actor, label, obs_fmt(obs)))
-            f.write("E\n")
+                line = cache.get(e)
+                if line is None:
+                    u, v, actor, label, obs = g.edges[e]
+                    line = "S %d %s %s\n" % (actor, label, obs_fmt(obs))
+                    cache[e] = line
+                out.append(line)
+            out.append("E\n")
+            f.write("".join(out))
     return sum(len(t) for t in tours)
 
 
 def run_tlc_sim(spec, cfg, num, depth, workers=4, seed=1, timeout=1800, cwd=None, env=None):
     """simulation with a history-printing CONSTRAINT (see *Sim.tla): returns list of behaviours,
     each a list of (label, obs[, actor])"""
-    metadir = os.path.join("/verif/build/tlc", "s%d_%d" % (os.getpid(), int(time.time() * 1000) % 100000))
-    cmd = ["timeout", str(timeout), "tlc", "-workers", str(workers), "-metadir", metadir, "-config", cfg,
+    metadir = os.path.join("/verif/build/work", str(os.getpid()), "tlc", "s%d_%d" % (os.getpid(), int(time.time() * 1000) % 100000))
+    cmd = ["timeout", str(timeout), "java", "-XX:+UseSerialGC", "-Xmx4g", "-cp", TLA_JAR + ":" + CM_JAR, "tlc2.TLC", "-workers", str(workers), "-metadir", metadir, "-config", cfg,
            "-simulate", "num=%d" % num, "-depth", str(depth), "-seed", str(seed), spec]
     p = subprocess.Popen(cmd, stdout=subprocess.PIPE, stderr=subprocess.STDOUT, text=True, cwd=cwd, env=env)
     out = []; log = []
